@@ -430,23 +430,22 @@ def ownership(ctx, world):
         return False, f"unknown buffer {str(t)[:50]}"
 
     def walk_paths(t, facts):
-        t = strip_seq(t)
-        if t.op == "if":
-            c = t.cond
-            f_then, f_else = set(facts), set(facts)
-            if c is prev:
-                f_then.add(("prev", True))
-                f_else.add(("prev", False))
-            elif is_prev_flag(c):
-                f_then.add(("mutable", True))
-                f_else.add(("mutable", False))
-            elif c.op == "cmp" and c.opname == "In":
-                f_then.add(("sparse", True))
-                f_else.add(("sparse", False))
-            yield from walk_paths(t.then, f_then)
-            yield from walk_paths(t.other, f_else)
-        else:
-            yield facts, t
+        """every path of the function with the facts it establishes about (prev present, prev mutable, g sparse);
+        conditions are reduced to canonical atoms first, so `if not mutable:` / `if prev is None:` / flipped
+        branches give the same facts"""
+        is_sparse_atom = lambda a: a.op == "cmp" and a.opname == "In"
+        for c in cases(unseq(t)):
+            fs = set(facts)
+            for a, pol in c.facts:
+                if a is prev:
+                    fs.add(("prev", pol))
+                elif a.op == "cmp" and a.opname in ("Is", "Eq") and ((a.l is prev and _is_none(a.r)) or (a.r is prev and _is_none(a.l))):
+                    fs.add(("prev", not pol))
+                elif is_prev_flag(a):
+                    fs.add(("mutable", pol))
+                elif is_sparse_atom(a):
+                    fs.add(("sparse", pol))
+            yield fs, c.leaf
 
     for facts, leaf in walk_paths(r, set()):
         n += 1
@@ -1010,50 +1009,61 @@ def dispatch(ctx, world):
     def nth(i):
         return lambda t: (t.op == "sub" and t.obj is argnums and t.idx.op == "const" and t.idx.value == i) or False
 
-    r = strip_seq(r)
+    r = unseq(expand(ev, r, KEEP)) if r is not None else None
     checked = 0
-    cur = r
-    while cur is not None and cur.op == "if":
-        c = cur.cond
+    len_atom = lambda a: a.op == "cmp" and a.opname == "Eq" and ((is_call_to(a.l, "builtins.len") and a.l.args[0] is argnums and a.r.op == "const") or (is_call_to(a.r, "builtins.len") and a.r.args[0] is argnums and a.l.op == "const"))
+    len_val = lambda a: a.r.value if a.r.op == "const" else a.l.value
+    seen_L = set()
+    generic_seen = False
+    for c in cases(r) if r is not None else []:
+        if c.leaf.op == "raise":
+            continue  # the KeyError -> NotImplementedError translation (A6.raise)
         L = None
-        if c.op == "cmp" and c.opname == "Eq" and is_call_to(c.l, "builtins.len") and c.l.args[0] is argnums and c.r.op == "const":
-            L = c.r.value
-        br = strip_seq(cur.then)
-        if L is not None and br.op == "closure":
-            res = strip_seq(ev.apply(br, [g], {}, []))
+        for a, pol in c.facts:
+            if len_atom(a) and pol:
+                L = len_val(a)
+        br = c.leaf
+        if br.op != "closure":
+            ctx.fail("A13.align", "defvjp:dispatch", f"{q}:dispatch", loc, f"a path of vjp_argnums does not return a vjp function (found {str(br)[:80]})", "any primitive with a defvjp rule")
+            continue
+        res = unseq(expand(ev, ev.apply(br, [g], {}, []), KEEP))
+        if L is not None:
+            if L in seen_L:
+                continue
+            seen_L.add(L)
             ok = res.op == "tuple" and len(res.elts) == L
             if ok:
                 for i, el in enumerate(res.elts):
-                    el2 = _resolve_unpack(el)
-                    if L == 1:
-                        pred = nth(0)
-                    else:
-                        # argnum_0, argnum_1 = argnums  -> sub(argnums, i)
-                        pred = nth(i)
-                    ok = ok and rule_call(el2, pred)
+                    ok = ok and rule_call(el, nth(i))
             checked += 1
             if ok:
                 ctx.ob("A13.align", f"defvjp: fast path L=={L} returns (vjps_dict[argnums[i]](ans,*args,**kwargs)(g) for i in order)", True, loc)
             else:
                 ctx.fail("A13.align", f"defvjp:L=={L}", f"{q}:L{L}", loc, f"the L=={L} fast path is not the specialisation of the generic mapping (found {str(res)[:120]})", "a primitive differentiated w.r.t. arguments (1,) only, or (0, 1) with different rules: the cotangent is computed by the wrong rule or routed to the wrong parent")
-        cur = strip_seq(cur.other)
-    if cur is not None and cur.op == "closure":
-        res = strip_seq(ev.apply(cur, [g], {}, []))
-        ok = False
-        if res.op == "comp":
-            el = strip_seq(res.elt)
-            # (vjp(g) for vjp in vjps)  with vjps = [vjps_dict[argnum](ans,*args,**kwargs) for argnum in argnums]
-            if el.op == "call" and len(el.args) == 1 and el.args[0] is g and el.fn.op == "iterelem":
-                src = el.fn.src
-                if src.op == "comp" and src.src is argnums:
-                    mk = strip_seq(src.elt)
-                    ok = mk.op == "call" and mk.fn.op == "sub" and mk.fn.obj is vd and mk.fn.idx.op == "iterelem" and mk.fn.idx.src is argnums and len(mk.args) == 2 and mk.args[0] is ans and mk.args[1].op == "star" and mk.args[1].x is args and len(mk.dstar) == 1 and mk.dstar[0] is kw and src.get("kind") == "ListComp"
-        checked += 1
-        if ok:
-            ctx.ob("A13.align", "defvjp: generic path maps argnums in order through vjps_dict (rules built once, as a list)", True, loc)
         else:
-            ctx.fail("A13.align", "defvjp:generic", f"{q}:generic", loc, f"the generic path is not `vjps = [vjps_dict[a](ans,*args,**kwargs) for a in argnums]; lambda g: (vjp(g) for vjp in vjps)` (found {str(res)[:120]})", "a primitive with three or more differentiated arguments")
-    ctx.floor("A13.align defvjp branches", checked, 3)
+            if generic_seen:
+                continue
+            generic_seen = True
+            ok = False
+            rs = res
+            if rs.op == "call" and rs.fn.op == "ref" and rs.fn.ref.qual in ("builtins.tuple", "builtins.list") and len(rs.args) == 1:
+                rs = rs.args[0]
+            if rs.op == "comp" and not rs.conds:
+                el = rs.elt
+                # (vjp(g) for vjp in vjps)  with vjps = [vjps_dict[argnum](ans,*args,**kwargs) for argnum in argnums]
+                if el.op == "call" and len(el.args) == 1 and el.args[0] is g and el.fn.op == "iterelem" and el.fn.src is rs.src:
+                    src = rs.src
+                    if src.op == "comp" and src.src is argnums and not src.conds:
+                        mk = src.elt
+                        ok = mk.op == "call" and mk.fn.op == "sub" and mk.fn.obj is vd and mk.fn.idx.op == "iterelem" and mk.fn.idx.src is argnums and len(mk.args) == 2 and mk.args[0] is ans and mk.args[1].op == "star" and mk.args[1].x is args and len(mk.dstar) == 1 and mk.dstar[0] is kw and src.get("kind") == "ListComp"
+            checked += 1
+            if ok:
+                ctx.ob("A13.align", "defvjp: generic path maps argnums in order through vjps_dict (rules built once, as a list)", True, loc)
+            else:
+                ctx.fail("A13.align", "defvjp:generic", f"{q}:generic", loc, f"the generic path is not `vjps = [vjps_dict[a](ans,*args,**kwargs) for a in argnums]; lambda g: (vjp(g) for vjp in vjps)` (found {str(res)[:120]})", "a primitive with three or more differentiated arguments")
+    if not generic_seen:
+        ctx.fail("A13.align", "defvjp:generic", f"{q}:generic", loc, "vjp_argnums has no path for an arbitrary number of differentiated arguments", "a primitive with three or more differentiated arguments")
+    ctx.floor("A13.align defvjp branches", checked, 1)
     # vjps_dict = {argnum: translate_vjp(maker, fun, argnum) for argnum, maker in zip(argnums, makers)}
     for fname, tr, dname in (("defvjp", "translate_vjp", "vjps_dict"), ("defjvp", "translate_jvp", "jvps_dict")):
         rr, sy, m2, fn, scd = eval_function(world, CORE, fname)
